@@ -81,8 +81,26 @@ func (m *e2Machine) rawRequest(a pt.Action, errs *[]string, mu *sync.Mutex) {
 			nReversed.Add(1)
 			defer func() { reversedCallers.Delete(id); nReversed.Add(-1) }()
 		}
-		if err := c.h.C.Sync(); err != nil {
+		err := c.h.C.Sync()
+		if err != nil {
 			note(fmt.Sprintf("c%d sync: %v", a.R, err))
+		}
+		if err == nil && a.V != "" {
+			// Sync() returned without an error: what this goroutine had issued before calling it is on the server
+			// (a.V names the counter delta of its operation)
+			found := false
+			for _, dt := range m.readStore() {
+				for _, op := range dt.ops {
+					if op.cuid == c.cuid && strings.Contains(op.body, `"Delta":`+a.V+`}`) {
+						found = true
+					}
+				}
+			}
+			if !found {
+				mu.Lock()
+				m.syncLost = append(m.syncLost, fmt.Sprintf("client %d: Sync() returned nil, but the operation (delta %s) this goroutine issued before calling it is not stored", a.R, a.V))
+				mu.Unlock()
+			}
 		}
 	case "opensync":
 		d := m.openDatatype(c, a.T, a.K, c.typ)
@@ -493,6 +511,15 @@ func init() {
 					if v := m.checkSnapshots(); v != nil {
 						return v
 					}
+				}
+				envEvent := false
+				for _, tr := range x.trace {
+					if strings.HasPrefix(tr, "~env:") {
+						envEvent = true // (a lease that ran out may have had the push refused: the client retries later)
+					}
+				}
+				if len(m.syncLost) > 0 && !envEvent {
+					return viol("C20:sync-returned-before-the-push", "%s; schedule %v", m.syncLost[0], x.trace)
 				}
 				if has(sa.AtEnd, "patched") && len(m.patchRefused) > 0 {
 					// a document that already had a log when the patch was called can always be patched: nobody creates it any more, so
